@@ -1,6 +1,7 @@
 // One checked cbor_load call (shared by the sequence receiver, the fault sweep and the nesting workload).
 #pragma once
 #include "impl.hpp"
+#include <functional>
 
 struct LoadOutcome {
   bool item = false;          // an item was returned (already checked against the reference and released)
@@ -18,6 +19,8 @@ struct LoadOpts {
   bool check_position_attr = true;   // recover the head of a refused allocation black-box and check MEMERROR position
   bool post_ops = true;       // serialise the returned tree and compare with the reference encoder
   bool exact_window = false;  // copy the window into an exactly sized block, release it before looking at the tree
+  bool deep_post = false;     // also describe, size, serialize into a buffer, copy and release the copy (C19: bounded stack)
+  std::function<void(const std::function<void()>&)> runner;   // when set, every library call goes through it (e.g. onto a bounded stack)
   unsigned L = 0;             // nesting limit of the build
   const char* where = "";
 };
